@@ -834,6 +834,450 @@ theorem C12_reset_is_off_then_on {tbl : List Route} (hg : allGuarded tbl = true)
         show (tick (run tbl (reset n).1 ops)).upCd = _
         rw [this, hf.2.2.2.2.2.2.1, hq5]
 
+/-! ### once OFF, nothing is running -/
+
+def NoRunning (n : Node) : Prop := (∀ s ∈ n.svcs, s.st ≠ .running) ∧ (∀ a ∈ n.apps, a.st ≠ .running)
+
+/-- the invariant of the property statement -/
+def OffInv (n : Node) : Prop := n.st = .off → NoRunning n
+
+theorem stop_not_running (s : Service) : s.stop.1.st ≠ .running := by
+  unfold Service.stop
+  split
+  · simp
+  · rename_i h; intro hr; exact h (Or.inl hr)
+
+theorem close_not_running (a : App) : a.close.1.st ≠ .running := by
+  unfold App.close
+  split
+  · simp
+  · assumption
+
+theorem shutDownActions_noRunning (n : Node) : NoRunning (shutDownActions n) := by
+  constructor
+  · intro s hs
+    simp only [shutDownActions, List.mem_map] at hs
+    obtain ⟨s0, _, rfl⟩ := hs
+    exact stop_not_running s0
+  · intro a ha
+    simp only [shutDownActions, List.mem_map] at ha
+    obtain ⟨a0, _, rfl⟩ := ha
+    exact close_not_running a0
+
+/-- `power_on` never leaves a node OFF -/
+theorem powerOn_not_off (n : Node) : (powerOn n).1.st ≠ .off := by
+  intro hoff
+  unfold powerOn at hoff
+  split at hoff
+  · cases hoff
+  · split at hoff
+    · cases hoff
+    · rename_i hne; exact absurd hoff hne
+
+theorem powerOn_offInv (n : Node) : OffInv (powerOn n).1 := fun hoff => absurd hoff (powerOn_not_off n)
+
+theorem powerOff_offInv (n : Node) (h : OffInv n) : OffInv (powerOff n).1 := by
+  unfold powerOff
+  split
+  · dsimp only
+    split
+    · exact powerOn_offInv _
+    · exact fun _ => shutDownActions_noRunning (disableNics n)
+  · split
+    · intro hoff; cases hoff
+    · exact h
+
+theorem tick_offInv (n : Node) (h : OffInv n) : OffInv (tick n) := by
+  have h1 : OffInv (tickUp n) := by
+    unfold tickUp
+    split
+    · exact h
+    · split
+      · intro hoff; cases hoff
+      · exact h
+  have h2 : OffInv (tickDown (tickUp n)) := by
+    unfold tickDown
+    split
+    · exact h1
+    · split
+      · dsimp only
+        split
+        · exact powerOn_offInv _
+        · exact fun _ => shutDownActions_noRunning (setSt (tickUp n) .off)
+      · exact h1
+  unfold tick tickSoftware
+  split
+  · rename_i hon; intro hoff; rw [hon] at hoff; cases hoff
+  · exact h2
+
+theorem request_offInv {tbl : List Route} (hg : allGuarded tbl = true) (n : Node) (key : String) (sub : Sub)
+    (h : OffInv n) : OffInv (request tbl n key sub).1 := by
+  rcases request_cases hg n key sub with ⟨e, _⟩ | ⟨e, _⟩ | ⟨e, hc⟩
+  · rw [e]; exact h
+  · rw [e]; exact h
+  · rw [e]
+    rcases hc with ⟨hk, _⟩ | ⟨hk, hst⟩
+    · subst hk; rw [handle_startup]; exact powerOn_offInv n
+    · by_cases h1 : key = "shutdown"
+      · subst h1; rw [handle_shutdown]; exact powerOff_offInv n h
+      · by_cases h3 : key = "reset"
+        · subst h3; rw [handle_reset]
+          exact powerOff_offInv { n with resetting := true } h
+        · have := (handle_other_same n key sub h1 hk h3).1
+          intro hoff; rw [this, hst] at hoff; cases hoff
+
+/-- **off_nothing_running.** Under a guarded table, along every sequence of requests, ticks and frames: whenever the
+node is OFF, no service is RUNNING and no application is RUNNING. (The guard matters: `Service.resume` does not test the
+node; it is the node-is-on validator of the `service` route that keeps a paused service from being resumed on an OFF node.) -/
+theorem C12_off_nothing_running {tbl : List Route} (hg : allGuarded tbl = true) (n : Node) (ops : List Op)
+    (h : OffInv n) : OffInv (run tbl n ops) := by
+  induction ops generalizing n with
+  | nil => exact h
+  | cons op ops ih =>
+    apply ih
+    cases op with
+    | request key sub => exact request_offInv hg n key sub h
+    | tick => exact tick_offInv n h
+    | frameIn i => exact h
+    | frameOut i => exact h
+
+/-- **software_idle_when_not_on.** On a node that is not ON: `start()` and `run()` do nothing, and
+`_can_perform_action` (the first test of `send`/`receive`, see `C12_gen_software_guards`) is false for every service
+and application, whatever their own state. -/
+theorem C12_software_idle_when_not_on (n : Node) (hne : n.st ≠ .on) (s : Service) (a : App) :
+    s.start n.isOn = (s, false) ∧ a.run n.isOn = a ∧ s.canPerform n.isOn = false ∧ a.canPerform n.isOn = false := by
+  have : n.isOn = false := by simp [Node.isOn, hne]
+  rw [this]
+  exact ⟨rfl, rfl, rfl, rfl⟩
+
+/-- software time stands still while the node is not ON (restart / install countdowns are suspended) -/
+theorem C12_software_suspended_when_not_on (n : Node) (hne : (tickDown (tickUp n)).st ≠ .on) :
+    (tick n).svcs = (tickDown (tickUp n)).svcs ∧ (tick n).apps = (tickDown (tickUp n)).apps := by
+  unfold tick; rw [tickSoftware_notOn _ hne]; exact ⟨rfl, rfl⟩
+
+/-! ### coming back ON -/
+
+/-- every linked interface enabled, no service STOPPED, no application CLOSED -/
+def AllUp (n : Node) : Prop :=
+  (∀ c ∈ n.nics, c.linked = true → c.enabled = true) ∧ (∀ s ∈ n.svcs, s.st ≠ .stopped) ∧ (∀ a ∈ n.apps, a.st ≠ .closed)
+
+theorem nicEnable_true (c : Nic) : c.linked = true → (Nic.enable true c).enabled = true := by
+  intro hl
+  unfold Nic.enable
+  by_cases he : c.enabled = true
+  · simp [he]
+  · simp [he, hl]
+
+theorem start_not_stopped (s : Service) : (s.start true).1.st ≠ .stopped := by
+  unfold Service.start nodeAllows
+  by_cases h : s.st = .stopped <;> simp [h]
+
+theorem run_not_closed (a : App) : (a.run true).st ≠ .closed := by
+  unfold App.run nodeAllows
+  by_cases h : a.st = .closed <;> simp [h]
+
+/-- the three statements executed wherever the code assigns ON (in either order) bring everything up -/
+theorem allUp_on (n : Node) :
+    AllUp (enableNics (startUpActions (setSt n .on))) ∧ AllUp (startUpActions (enableNics (setSt n .on))) := by
+  have hn : ∀ c ∈ n.nics.map (Nic.enable true), c.linked = true → c.enabled = true := by
+    intro c hc hl
+    simp only [List.mem_map] at hc
+    obtain ⟨c0, _, rfl⟩ := hc
+    have hl0 : c0.linked = true := by
+      unfold Nic.enable at hl
+      split at hl
+      · exact hl
+      · split at hl
+        · exact hl
+        · split at hl <;> exact hl
+    exact nicEnable_true c0 hl0
+  have hs : ∀ s ∈ n.svcs.map (fun s => (s.start true).1), s.st ≠ .stopped := by
+    intro s hs
+    simp only [List.mem_map] at hs
+    obtain ⟨s0, _, rfl⟩ := hs
+    exact start_not_stopped s0
+  have ha : ∀ a ∈ n.apps.map (App.run true), a.st ≠ .closed := by
+    intro a ha
+    simp only [List.mem_map] at ha
+    obtain ⟨a0, _, rfl⟩ := ha
+    exact run_not_closed a0
+  exact ⟨⟨hn, hs, ha⟩, ⟨hn, hs, ha⟩⟩
+
+theorem svcTick_not_stopped (s : Service) (h : s.st ≠ .stopped) : s.tick.st ≠ .stopped := by
+  unfold Service.tick
+  split
+  · dsimp only; split <;> simp
+  · exact h
+
+theorem appTick_not_closed (a : App) (h : a.st ≠ .closed) : a.tick.st ≠ .closed := by
+  unfold App.tick
+  split
+  · split
+    · simp
+    · exact h
+  · exact h
+
+theorem tickSoftware_allUp (n : Node) (h : AllUp n) : AllUp (tickSoftware n) := by
+  unfold tickSoftware
+  split
+  · refine ⟨h.1, ?_, ?_⟩
+    · intro s hs
+      simp only [List.mem_map] at hs
+      obtain ⟨s0, hs0, rfl⟩ := hs
+      exact svcTick_not_stopped s0 (h.2.1 s0 hs0)
+    · intro a ha
+      simp only [List.mem_map] at ha
+      obtain ⟨a0, ha0, rfl⟩ := ha
+      exact appTick_not_closed a0 (h.2.2 a0 ha0)
+  · exact h
+
+/-- `power_on`: if it assigned anything and the node is ON afterwards, everything is up -/
+theorem powerOn_allUp (n : Node) (hon : (powerOn n).1.st = .on) (hh : (powerOn n).1.hist ≠ n.hist) :
+    AllUp (powerOn n).1 := by
+  unfold powerOn at hon hh ⊢
+  split
+  · exact (allUp_on n).1
+  · rename_i hu
+    rw [if_neg hu] at hon hh
+    split
+    · rename_i hoff; rw [if_pos hoff] at hon; cases hon
+    · rename_i hoff; rw [if_neg hoff] at hh; exact absurd rfl hh
+
+theorem powerOff_allUp (n : Node) (hon : (powerOff n).1.st = .on) (hh : (powerOff n).1.hist ≠ n.hist) :
+    AllUp (powerOff n).1 := by
+  unfold powerOff at hon hh ⊢
+  split
+  · rename_i hd
+    rw [if_pos hd] at hon hh
+    dsimp only at hon hh ⊢
+    split
+    · rename_i hr
+      rw [if_pos hr] at hon hh
+      apply powerOn_allUp _ hon
+      intro heq
+      have hb := powerOn_from_off { setSt (shutDownActions (disableNics n)) .off with resetting := false } rfl
+      rw [hb.2.1] at heq
+      exact absurd (congrArg List.length heq) (by simp [setSt])
+    · rename_i hr; rw [if_neg hr] at hon; cases hon
+  · rename_i hd
+    rw [if_neg hd] at hon hh
+    split
+    · rename_i hst; rw [if_pos hst] at hon; cases hon
+    · rename_i hst; rw [if_neg hst] at hh; exact absurd rfl hh
+
+theorem tick_allUp (n : Node) (hon : (tick n).st = .on) (hh : (tick n).hist ≠ n.hist) : AllUp (tick n) := by
+  unfold tick at hon hh ⊢
+  have hs := tickSoftware_same (tickDown (tickUp n))
+  rw [hs.1] at hon
+  rw [hs.2.1] at hh
+  apply tickSoftware_allUp
+  -- which block assigned?
+  unfold tickUp at hon hh ⊢
+  split
+  · -- countdown still running in the first block: the second block must have assigned
+    rename_i hc
+    rw [if_pos hc] at hon hh
+    unfold tickDown at hon hh ⊢
+    split
+    · rename_i hd; rw [if_pos hd] at hh; exact absurd rfl hh
+    · rename_i hd
+      rw [if_neg hd] at hon hh
+      split
+      · rename_i hsd
+        rw [if_pos hsd] at hon hh
+        dsimp only at hon hh ⊢
+        split
+        · rename_i hr
+          rw [if_pos hr] at hon hh
+          exact powerOn_allUp _ hon (by
+            intro heq
+            have hb := powerOn_from_off { shutDownActions (setSt { n with upCd := n.upCd - 1 } .off) with resetting := false } rfl
+            rw [hb.2.1] at heq
+            exact absurd (congrArg List.length heq) (by simp [setSt, shutDownActions]))
+        · rename_i hr; rw [if_neg hr] at hon; cases hon
+      · rename_i hsd; rw [if_neg hsd] at hh; exact absurd rfl hh
+  · rename_i hc
+    rw [if_neg hc] at hon hh
+    split
+    · -- BOOTING -> ON in the first block; the second block finds an ON node and assigns nothing
+      have hall := (allUp_on n).2
+      unfold tickDown
+      split
+      · exact hall
+      · rw [if_neg (by show PState.on ≠ .shuttingDown; decide)]
+        exact hall
+    · rename_i hb
+      rw [if_neg hb] at hon hh
+      unfold tickDown at hon hh ⊢
+      split
+      · rename_i hd; rw [if_pos hd] at hh; exact absurd rfl hh
+      · rename_i hd
+        rw [if_neg hd] at hon hh
+        split
+        · rename_i hsd
+          rw [if_pos hsd] at hon hh
+          dsimp only at hon hh ⊢
+          split
+          · rename_i hr
+            rw [if_pos hr] at hon hh
+            exact powerOn_allUp _ hon (by
+              intro heq
+              have hb := powerOn_from_off { shutDownActions (setSt n .off) with resetting := false } rfl
+              rw [hb.2.1] at heq
+              exact absurd (congrArg List.length heq) (by simp [setSt, shutDownActions]))
+          · rename_i hr; rw [if_neg hr] at hon; cases hon
+        · rename_i hsd; rw [if_neg hsd] at hh; exact absurd rfl hh
+
+/-- **back_on.** Whenever an operation assigns `operating_state` and leaves the node ON — a start-up request with
+duration 0, the tick that ends BOOTING, the tick or request that completes a reset with `start_up_duration = 0` —
+every linked interface is enabled, no service is left STOPPED and no application is left CLOSED. -/
+theorem C12_back_on {tbl : List Route} (hg : allGuarded tbl = true) (n : Node) (op : Op)
+    (hon : (step tbl n op).1.st = .on) (hh : (step tbl n op).1.hist ≠ n.hist) : AllUp (step tbl n op).1 := by
+  cases op with
+  | tick => exact tick_allUp n hon hh
+  | frameIn i => exact absurd rfl hh
+  | frameOut i => exact absurd rfl hh
+  | request key sub =>
+    show AllUp (request tbl n key sub).1
+    have hon' : (request tbl n key sub).1.st = .on := hon
+    have hh' : (request tbl n key sub).1.hist ≠ n.hist := hh
+    rcases request_cases hg n key sub with ⟨e, _⟩ | ⟨e, _⟩ | ⟨e, hc⟩
+    · rw [e] at hh'; exact absurd rfl hh'
+    · rw [e] at hh'; exact absurd rfl hh'
+    · rw [e] at hon' hh' ⊢
+      by_cases h2 : key = "startup"
+      · subst h2; rw [handle_startup] at hon' hh' ⊢; exact powerOn_allUp n hon' hh'
+      · by_cases h1 : key = "shutdown"
+        · subst h1; rw [handle_shutdown] at hon' hh' ⊢; exact powerOff_allUp n hon' hh'
+        · by_cases h3 : key = "reset"
+          · subst h3; rw [handle_reset] at hon' hh' ⊢
+            exact powerOff_allUp { n with resetting := true } hon' hh'
+          · exact absurd (handle_other_same n key sub h1 h2 h3).2.1 hh'
+
+/-- power events never touch a DISABLED service: it stays DISABLED through shutdown and start-up -/
+theorem C12_disabled_stays_disabled (s : Service) (h : s.st = .disabled) (nodeOn : Bool) :
+    s.stop.1.st = .disabled ∧ (s.start nodeOn).1.st = .disabled ∧ s.tick.st = .disabled := by
+  refine ⟨?_, ?_, ?_⟩
+  · unfold Service.stop; simp [h]
+  · unfold Service.start; cases nodeOn <;> simp [h, nodeAllows]
+  · unfold Service.tick; simp [h]
+
+/-! ### non-vacuity: concrete nodes meeting the hypotheses, and the documented timing on them -/
+
+def exOn : Node :=
+  { st := .on, upDur := 2, downDur := 3, nics := [⟨true, true⟩, ⟨false, false⟩],
+    svcs := [⟨.running, 0, 5⟩, ⟨.paused, 0, 5⟩, ⟨.disabled, 0, 5⟩, ⟨.restarting, 1, 5⟩], apps := [⟨.running, 0, 2⟩, ⟨.installing, 1, 2⟩] }
+def exOff : Node :=
+  { st := .off, upDur := 2, downDur := 3, nics := [⟨false, true⟩, ⟨false, false⟩],
+    svcs := [⟨.stopped, 0, 5⟩, ⟨.disabled, 0, 5⟩], apps := [⟨.closed, 0, 2⟩] }
+def shutdownOp : Op := .request "shutdown" (.opaque .success)
+def startupOp : Op := .request "startup" (.opaque .success)
+def resetOp : Op := .request "reset" (.opaque .success)
+
+example : allGuarded baseRoutes = true := by decide
+example : NicInv exOn ∧ NicInv exOff := by unfold NicInv NicsOff; decide
+example : OffInv exOn ∧ OffInv exOff := by unfold OffInv NoRunning; decide
+example : exOn.hist = [] ∧ exOff.st = .off ∧ 0 < exOff.upDur ∧ exOn.st = .on ∧ 0 < exOn.downDur ∧ exOn.resetting = false := by decide
+example : (baseRoutes.find? (fun r => r.key == "startup")).isSome = true := by decide
+/-- `range(d + 1)`: start-up duration 2 → BOOTING after the request and after ticks 1 and 2, ON after tick 3 -/
+example : ((run baseRoutes exOff [startupOp]).st, (run baseRoutes exOff [startupOp, .tick, .tick]).st,
+    (run baseRoutes exOff [startupOp, .tick, .tick, .tick]).st) = (.booting, .booting, .on) := by decide
+/-- shut-down duration 3 → SHUTTING_DOWN through tick 3, OFF after tick 4; interfaces disabled from the request on;
+services keep their state until OFF is reached -/
+example : ((run baseRoutes exOn [shutdownOp, .tick, .tick, .tick]).st, (run baseRoutes exOn [shutdownOp, .tick, .tick, .tick, .tick]).st,
+    (run baseRoutes exOn [shutdownOp]).nics.map (·.enabled),
+    (run baseRoutes exOn [shutdownOp, .tick]).svcs.map (·.st),
+    (run baseRoutes exOn [shutdownOp, .tick, .tick, .tick, .tick]).svcs.map (·.st)) =
+    (.shuttingDown, .off, [false, false], [.running, .paused, .disabled, .restarting],
+     [.stopped, .stopped, .disabled, .restarting]) := by decide
+/-- reset = 4 ticks down, then (same tick) OFF→BOOTING, 3 more ticks up; the whole micro-trace -/
+example : (run baseRoutes exOn [resetOp, .tick, .tick, .tick, .tick, .tick, .tick, .tick]).hist =
+    [.on, .booting, .off, .shuttingDown] := by decide
+/-- back ON: linked interface up, STOPPED/PAUSED→(STOPPED→)RUNNING, DISABLED stays, unlinked interface stays down -/
+example : let n := run baseRoutes exOn [resetOp, .tick, .tick, .tick, .tick, .tick, .tick, .tick]
+    (n.nics.map (·.enabled), n.svcs.map (·.st), n.apps.map (·.st)) =
+    ([true, false], [.running, .running, .disabled, .restarting], [.running, .running]) := by decide
+/-- requests in a transitional state are refused; a misspelt key is unreachable -/
+example : ((step baseRoutes (run baseRoutes exOff [startupOp]) startupOp).2,
+    (step baseRoutes (run baseRoutes exOff [startupOp]) (.request "service" (.svc 0 .start))).2,
+    (step baseRoutes (run baseRoutes exOff [startupOp]) (.request "power_on" (.opaque .success))).2) =
+    (.resp .failure, .resp .failure, .resp .unreachable) := by decide
+
+/-! ### the unrepaired code: F-14, F-20, F-21 as counterexamples (kept so that the defects stay documented) -/
+
+/-- `Node.power_off` as it was before the two `fix:` commits: the instant branch neither disabled the interfaces nor
+looked at `is_resetting` -/
+def powerOffOld (n : Node) : Node × Bool :=
+  if n.downDur ≤ 0 then (setSt (shutDownActions n) .off, true)
+  else if n.st = .on then ({ setSt (disableNics n) .shuttingDown with downCd := n.downDur }, true)
+  else (n, false)
+
+def exInstant : Node := { exOn with upDur := 0, downDur := 0 }
+
+/-- F-14: with `shut_down_duration = 0` the old `power_off` produced an OFF node with an enabled interface -/
+theorem C12_F14_counterexample : NicInv exInstant ∧ ¬ NicInv (powerOffOld exInstant).1 := by
+  unfold NicInv NicsOff; decide
+
+/-- the repaired function does not -/
+example : NicInv (powerOff exInstant).1 := powerOff_nicInv _ (by unfold NicInv NicsOff; decide)
+
+theorem tick_off (n : Node) (h : n.st = .off) : (tick n).st = .off ∧ (tick n).resetting = n.resetting := by
+  have h1 : (tickUp n).st = .off ∧ (tickUp n).resetting = n.resetting := by
+    unfold tickUp
+    split
+    · exact ⟨h, rfl⟩
+    · rw [if_neg (by rw [h]; decide)]; exact ⟨h, rfl⟩
+  have h2 : (tickDown (tickUp n)).st = .off ∧ (tickDown (tickUp n)).resetting = n.resetting := by
+    unfold tickDown
+    split
+    · exact h1
+    · rw [if_neg (by rw [h1.1]; decide)]; exact h1
+  unfold tick
+  rw [tickSoftware_notOn _ (by rw [h2.1]; decide)]
+  exact h2
+
+/-- `k` ticks in a row -/
+def ticks : Nat → Node → Node
+  | 0, n => n
+  | k + 1, n => ticks k (tick n)
+
+theorem ticks_off (k : Nat) (n : Node) (h : n.st = .off) :
+    (ticks k n).st = .off ∧ (ticks k n).resetting = n.resetting := by
+  induction k generalizing n with
+  | zero => exact ⟨h, rfl⟩
+  | succ k ih =>
+    have := ih (tick n) (tick_off n h).1
+    exact ⟨this.1, this.2.trans (tick_off n h).2⟩
+
+/-- F-20: with `shut_down_duration = 0` the old `reset` left the node OFF with `is_resetting` set, and no number of
+ticks ever started it again -/
+theorem C12_F20_counterexample :
+    let n := (powerOffOld { exInstant with resetting := true }).1
+    n.st = .off ∧ n.resetting = true ∧ ∀ k, (ticks k n).st = .off ∧ (ticks k n).resetting = true := by
+  refine ⟨by decide, by decide, fun k => ?_⟩
+  exact ticks_off k _ (by decide)
+
+/-- the repaired one passes OFF and is ON again within the request -/
+example : (reset exInstant).1.st = .on ∧ (reset exInstant).1.hist = [.on, .off] ∧ (reset exInstant).1.resetting = false := by
+  decide
+
+/-- F-21: the route tables of routers and firewalls as they were (no validator on the ACL routes) -/
+def oldRouterRoutes : List Route := baseRoutes ++ [⟨"acl", .none⟩]
+def oldFirewallRoutes : List Route := oldRouterRoutes ++ [⟨"internal", .none⟩, ⟨"dmz", .none⟩, ⟨"external", .none⟩]
+
+theorem C12_F21_counterexample :
+    allGuarded oldRouterRoutes = false ∧ allGuarded oldFirewallRoutes = false ∧
+    request oldRouterRoutes exOff "acl" (.opaque .success) = (exOff, .success) ∧
+    request oldFirewallRoutes exOff "dmz" (.opaque .success) = (exOff, .success) := by decide
+
+/-! ### outside requests: the Python API -/
+
+/-- `power_on()` / `power_off()` called directly (not through a request) are *not* guarded by the state when the
+duration is 0: from SHUTTING_DOWN, `power_on()` jumps to ON. The property quantifies over requests, whose validators
+exclude this; the fact is recorded because `Network.setup_for_episode` and `Firewall.__init__` call `power_on()` directly. -/
+theorem C12_api_power_on_unguarded :
+    (powerOn { exInstant with st := .shuttingDown }).1.st = .on ∧ edge 0 0 .shuttingDown .on = false := by decide
+
 end Primaite.Power
 
 /-! ### tie to the regenerated tables (Gen/Power.lean is rewritten from the source on every run) -/
